@@ -507,8 +507,8 @@ def guessed_times(spec, H, guesses):
     T = horizon("T", spec.T)
     t0 = horizon("t0", spec.t0)
     N = spec.N
-    if spec.grid.get("kind", "uniform") == "uniform":
-        n = [_ratio(k, N) for k in range(N + 1)]
+    if spec.grid.get("kind", "uniform") in ("uniform", "free"):
+        n = [_ratio(k, N) for k in range(N + 1)]        # a free grid starts from the uniform partition of the guessed horizon
     else:
         n = H.m.time_grid.normalized(N)
     return [t0 + T * n[k] if k else t0 for k in range(N + 1)], T, t0
@@ -609,6 +609,14 @@ def expected_initial(spec, meth, values):
             else:
                 exp = column(val, n, min(j, N - 1), j, False)
             out.append((("vcp", i, "node", j), h, exp))
+    # local horizons / local start times of the localized formulations: the partition implied by the guesses
+    g = spec.grid
+    if g.get("localize_T") or g.get("kind") == "free":
+        for k in range(N):
+            out.append((("T_local", k), ca.MX(H.T_local[k]), ts[k + 1] - ts[k]))
+    if g.get("localize_t0"):
+        for k in range(1, N + 1):
+            out.append((("t0_local", k), ca.MX(H.t0_local[k]), ts[k]))
     # horizon
     if spec.T[0] == "free":
         out.append((("T",), H.T, Tg))
